@@ -429,6 +429,16 @@ make_enum(struct enum_s *restrict tgt, echs_instant_t proto, rrulsp_t rr)
 	size_t nS = 0U;
 	unsigned int tmp;
 
+	if (UNLIKELY(echs_instant_all_day_p(proto))) {
+		/* BYHOUR, BYMINUTE and BYSECOND are to be ignored next to
+		 * a DATE value (RFC 5545, 3.3.10), there's but one
+		 * occurrence per day */
+		tgt->H[0U] = (uint8_t)proto.H;
+		tgt->M[0U] = (uint8_t)proto.M;
+		tgt->S[0U] = (uint8_t)proto.S;
+		tgt->nH = tgt->nM = tgt->nS = 1U;
+		return 0;
+	}
 	/* get all hours */
 	for (bitint_iter_t Hi = 0UL;
 	     (tmp = bui31_next(&Hi, rr->H), Hi);) {
@@ -2082,8 +2092,14 @@ rrul_fill_Hly(echs_instant_t *restrict tgt, size_t nti, rrulsp_t rr)
 		H = 0U;
 	}
 
-	/* generate a set of minutes and seconds */
-	(void)make_enum(&e, proto, rr);
+	/* generate a set of minutes and seconds,
+	 * an all-day instant is midnight here, see above */
+	{
+		echs_instant_t pr = proto;
+
+		pr.H = H;
+		(void)make_enum(&e, pr, rr);
+	}
 
 	/* set up the wday mask */
 	with (int tmp) {
@@ -2303,8 +2319,14 @@ rrul_fill_Mly(echs_instant_t *restrict tgt, size_t nti, rrulsp_t rr)
 		M = 0U;
 	}
 
-	/* generate a set of minutes and seconds */
-	(void)make_enum(&e, proto, rr);
+	/* generate a set of minutes and seconds,
+	 * an all-day instant is midnight here, see above */
+	{
+		echs_instant_t pr = proto;
+
+		pr.H = H;
+		(void)make_enum(&e, pr, rr);
+	}
 
 	/* set up the wday mask */
 	with (int tmp) {
